@@ -18,7 +18,8 @@ Theorem C16_root_write_wakes_all : forall r, wakes_k WRoot [] r = true.
 Proof. exact root_write_wakes_all. Qed.
 Print Assumptions C16_root_write_wakes_all.
 
-(** the write guard of a keyed collection field wakes exactly the same readers *)
+(** the write guard of a keyed collection field wakes exactly the same readers (it refreshes
+    the keys first, then notifies the same triggers) *)
 Theorem C16_keyed_write_wakes_same : forall p r, wakes_k WKeyed p r = wakes p r.
 Proof. exact keyed_write_wakes_same. Qed.
 Print Assumptions C16_keyed_write_wakes_same.
@@ -121,25 +122,37 @@ Print Assumptions C16_slots_injective_prefix_refuted.
 (** ---- the simulation that is compared with the implementation (Store/Sim.v): store value,
     KeyMap, one ordered subscriber set per trigger, one source set per effect, run queue ---- *)
 
+(** [simulate] (all subscriber kinds) is what runs against the implementation.  When every
+    reader is an executor-scheduled effect — Effect::new, a Memo read by an Effect,
+    Effect::new_isomorphic; i.e. no ImmediateEffect (runs inside the notification) and no
+    RenderEffect (first run at creation) — it coincides with [simulate_plain], whose final
+    state is [after]; the two theorems below are about those readers only (hence _partial:
+    ImmediateEffect / RenderEffect readers are covered by the correspondence check alone) *)
+Theorem C16_simulation_of_scheduled_readers :
+  forall sh v readers hs sched kcs, plain_readers readers ->
+    simulate sh v readers hs sched kcs = simulate_plain sh v readers hs sched kcs.
+Proof. exact simulate_plain_eq. Qed.
+Print Assumptions C16_simulation_of_scheduled_readers.
+
 (** after the initial effect runs and ANY history of writes / patches / pokes / reports, under
     any executor schedule and any FieldKeys visiting orders, the subscription state is
     consistent (subscriber sets and source sets mirror each other, nothing is left queued)
     and every effect's sources are the track_field sets of the fields it last read *)
-Theorem C16_reachable_states_consistent :
+Theorem C16_reachable_states_consistent_partial :
   forall sh readers sched kcs v hs, quiescent (length readers) (after sh readers sched kcs v hs).
 Proof. exact reachable_quiescent. Qed.
-Print Assumptions C16_reachable_states_consistent.
+Print Assumptions C16_reachable_states_consistent_partial.
 
 (** end to end: in any such state, dropping a write guard wakes exactly the effects whose last
     run read a field related (prefix either way) to the written path *)
-Theorem C16_sim_write_wakes_exactly_related :
+Theorem C16_sim_write_wakes_exactly_related_partial :
   forall sh readers sched kcs v hs kc chain new s1,
     let s := after sh readers sched kcs v hs in
     do_set sh kc s chain new = (s1, true) ->
     exists k p, forall e, exists rs,
       reads s e rs /\ (In e (st_queue s1) <-> exists r, In r rs /\ wakes_k k p r = true).
 Proof. exact sim_write_wakes_exactly_related. Qed.
-Print Assumptions C16_sim_write_wakes_exactly_related.
+Print Assumptions C16_sim_write_wakes_exactly_related_partial.
 
 (** the same for a plain field guard and a reader of one field, spelled with the prefix relation *)
 Theorem C16_sim_field_write_wakes_iff_prefix :
@@ -193,7 +206,7 @@ Theorem C16_keyed_reader_follows_key_refuted :
   let it k n := Lst [Num k; Num n] in
   let v := Lst [Lst [it 7%Z 70%Z; it 8%Z 80%Z; it 9%Z 90%Z]] in
   let v' := Lst [Lst [it 9%Z 90%Z; it 8%Z 80%Z; it 7%Z 70%Z]] in
-  let s := after sh [(false, [Fld 0; Key 7%Z])] [] [] v [HSet [] v'] in
+  let s := after sh [mkReader 0 0 [Fld 0; Key 7%Z]] [] [] v [HSet [] v'] in
   r_val (fst (walk (root_reached sh s) [Fld 0; Key 7%Z] 0)) = Some (it 9%Z 90%Z).
 Proof. exact keyed_reader_follows_key_refuted. Qed.
 Print Assumptions C16_keyed_reader_follows_key_refuted.
@@ -223,7 +236,7 @@ Print Assumptions C16_update_keys_restores_sync.
 Theorem C16_ancestor_first_refuted :
   let sh := SStruct [SInt; SStruct [SInt; SInt]] in
   let v := Lst [Num 1%Z; Lst [Num 2%Z; Num 3%Z]] in
-  let readers := [(false, [Fld 1; Fld 0]); (false, [Fld 1])] in
+  let readers := [mkReader 0 0 [Fld 1; Fld 0]; mkReader 0 0 [Fld 1]] in
   let s := after sh readers [] [] v [] in
   st_queue (fst (do_set sh ([], []) s [] (Lst [Num 4%Z; Lst [Num 5%Z; Num 6%Z]]))) = [0; 1].
 Proof. exact ancestor_first_refuted. Qed.
